@@ -16,9 +16,32 @@
                                                                      blocks_kept_until_destructor,
                                                                      live_elements_in_owned_blocks
    the model meets the reference checker the harness
-   observations are judged with                                   -> model_satisfies_spec *)
+   observations are judged with                                   -> model_satisfies_spec
+
+   The theorems above are about the node-level model (StableModel.v), in which a node record carries
+   its slot: several of them (slots_stable, swap_hands_over_slots, pool_containers_emit_no_copy,
+   elements_born_in_place, blocks_released_only_by_destructor) hold by the way that model is written.
+   Their content comes from the second half of this file: the CELL MACHINE (StableHeap.v) for List,
+   PoolList, HashMap, HashSet and PoolMap, a heap of cells with object / prev / next / cell / nextCell
+   fields in which every operation is the sequence of pointer writes of the header file and in which
+   a payload CAN be written into another cell (payload_move_is_expressible).
+
+   (mechanism) relinking instead of moving payloads: list link /
+   unlink, hash chain link / unlink with back-pointer fix-up,
+   free-list push / pop / threading of a fresh block, clear and
+   destructor loops, swap = exchange of the header fields and
+   re-anchoring of the last items to the other endItem             -> cell_machine_refines_model (one step),
+                                                                     cell_machine_represents, cell_machine_trace
+   an object stays in the cell it was constructed in               -> cell_objects_never_move
+   no stale copy: a cell holds an object only while it is linked   -> cell_objects_only_on_lists
+   iteration from _begin ends at the container's own endItem,
+   prev of the first item is 0, _size is the length                -> cell_lists_well_formed
+   free list (through prev), block list, bucket array and chains   -> cell_pools_and_chains
+   the cell machine's observations pass the reference checker      -> cell_machine_satisfies_spec
+   Map / MultiMap: rotations as parent / left / right rewrites     -> see the section at the end *)
 From Coq Require Import ZArith List Bool Arith.
 From Stable Require Import Gen_Stable StableSpec StableModel StableTree StableInv StableProofs StableTheorems StableRefine StableBlocks.
+From Stable Require Import StableHeap StableHeapBase StableHeapSeg StableHeapRep StableHeapStep StableHeapSeq StableHeapHash StableHeapMain.
 Import ListNotations.
 Local Open Scope Z_scope.
 
@@ -164,4 +187,93 @@ Proof. reflexivity. Qed.
 Example blocks_nonvacuous :
   let st := run KMap 0 (init KMap 0) [OApp 1 1; OApp 2 2; OApp 3 3; OApp 4 4; OApp 5 5; OApp 6 6; OApp 7 7; OApp 8 8; OApp 9 9; ORemKey 3; OClear; OApp 1 1] in
   (2 <=? length (blocks (s_a st)))%nat = true /\ length (elems (s_a st)) = 1%nat.
+Proof. vm_compute. auto. Qed.
+
+(* ==== the cell machine (List, PoolList, HashMap, HashSet, PoolMap) =================================== *)
+Theorem cell_machine_refines_model : forall k cap L S o,
+  heap_kind k = true -> Rep k L S ->
+  Rep k (fst (lstep k cap L o)) (fst (step k cap S o)) /\ snd (lstep k cap L o) = snd (step k cap S o).
+Proof. exact heap_step_refines. Qed.
+Print Assumptions cell_machine_refines_model.
+
+Theorem cell_machine_represents : forall k cap ops,
+  heap_kind k = true -> Rep k (lrun k cap (linit cap) ops) (run k cap (init k cap) ops).
+Proof. exact heap_refines_all. Qed.
+Print Assumptions cell_machine_represents.
+
+Theorem cell_machine_trace : forall k cap ops,
+  heap_kind k = true -> ltrace k cap (linit cap) ops = trace k cap (init k cap) ops.
+Proof. exact heap_trace_all. Qed.
+Print Assumptions cell_machine_trace.
+
+Theorem cell_objects_never_move : forall k cap ops1 ops2 s s' o o',
+  heap_kind k = true ->
+  let L1 := lrun k cap (linit cap) ops1 in
+  let L2 := lrun k cap L1 ops2 in
+  c_obj (hget (l_heap L1) s) = Some o -> c_obj (hget (l_heap L2) s') = Some o' -> o_id o = o_id o' ->
+  s' = s /\ o_key o' = o_key o.
+Proof. exact heap_stable_all. Qed.
+Print Assumptions cell_objects_never_move.
+
+Theorem cell_objects_only_on_lists : forall k cap ops s o,
+  heap_kind k = true ->
+  let L := lrun k cap (linit cap) ops in
+  c_obj (hget (l_heap L) s) = Some o ->
+  In (mkNode (o_id o) s (o_key o) (o_val o)) (lelems (l_heap L) (l_a L) ++ lelems (l_heap L) (l_b L)).
+Proof. exact heap_objects_on_lists_all. Qed.
+Print Assumptions cell_objects_only_on_lists.
+
+Theorem cell_lists_well_formed : forall k cap ops,
+  heap_kind k = true ->
+  let L := lrun k cap (linit cap) ops in
+  dll (l_heap L) (hd_begin (l_a L)) PNull (lelems (l_heap L) (l_a L)) (hd_last (l_a L)) (PEnd false) /\
+  dll (l_heap L) (hd_begin (l_b L)) PNull (lelems (l_heap L) (l_b L)) (hd_last (l_b L)) (PEnd true) /\
+  hd_size (l_a L) = length (lelems (l_heap L) (l_a L)) /\ hd_size (l_b L) = length (lelems (l_heap L) (l_b L)).
+Proof. exact heap_lists_wf_all. Qed.
+Print Assumptions cell_lists_well_formed.
+
+Theorem cell_pools_and_chains : forall k cap ops,
+  heap_kind k = true ->
+  let L := lrun k cap (linit cap) ops in let S := run k cap (init k cap) ops in
+  fl (l_heap L) (hd_free (l_a L)) (p_free (c_pool (s_a S))) /\ fl (l_heap L) (hd_free (l_b L)) (p_free (c_pool (s_b S))) /\
+  hd_blocks (l_a L) = p_blocks (c_pool (s_a S)) /\ hd_blocks (l_b L) = p_blocks (c_pool (s_b S)) /\
+  hrep (l_heap L) (l_a L) (c_body (s_a S)) /\ hrep (l_heap L) (l_b L) (c_body (s_b S)).
+Proof. exact heap_pools_all. Qed.
+Print Assumptions cell_pools_and_chains.
+
+Theorem cell_machine_satisfies_spec : forall k cap ops,
+  heap_kind k = true -> check_trace k ss_init (ltrace k cap (linit cap) ops) 0 = None.
+Proof. exact heap_spec_all. Qed.
+Print Assumptions cell_machine_satisfies_spec.
+
+(* ---- non-vacuity of the cell machine ------------------------------------------------------------------ *)
+Definition cm_ops : list op :=
+  [OApp 0 1; OApp 0 2; OApp 0 3; OApp 0 4; OApp 0 5; ORemAt 1; OSel true; OApp 0 6; OSel false; OSwap; OApp 0 7; OInsAt 1 0 8].
+Example cell_machine_runs :        (* five items (two blocks), a removal in the middle, swap, insertion at a position *)
+  let L := lrun KList 0 (linit 0) cm_ops in
+  map n_id (lelems (l_heap L) (l_a L)) = [5; 7; 6]%nat /\ map n_id (lelems (l_heap L) (l_b L)) = [0; 2; 3; 4]%nat /\
+  map n_slot (lelems (l_heap L) (l_b L)) = [(0, 3); (0, 1); (0, 0); (1, 3)]%nat /\
+  hd_last (l_a L) = PItem (2, 2)%nat /\ c_next (hget (l_heap L) (2, 2)%nat) = PEnd false /\
+  c_next (hget (l_heap L) (1, 3)%nat) = PEnd true.
+Proof. vm_compute. auto 10. Qed.
+
+Example cell_machine_hash_runs :   (* one bucket: chain of three, the middle one removed, back pointers fixed up *)
+  let L := lrun KHashMap 1 (linit 1) [OApp 1 10; OApp 2 20; OApp 3 30; ORemKey 2; OApp 4 40] in
+  map n_key (lelems (l_heap L) (l_a L)) = [1; 3; 4] /\ hd_data (l_a L) = Some O /\
+  c_nextcell (hget (l_heap L) (0, 0)%nat) = PItem (1, 3)%nat /\            (* data[0] -> item of key 4 (reuses the freed item) *)
+  c_nextcell (hget (l_heap L) (1, 3)%nat) = PItem (1, 2)%nat /\            (* -> item of key 3 *)
+  c_cell (hget (l_heap L) (1, 2)%nat) = (1, 3)%nat /\                      (* its back pointer: the nextCell of key 4's item *)
+  c_nextcell (hget (l_heap L) (1, 2)%nat) = PItem (1, 0)%nat /\            (* -> item of key 1 *)
+  c_nextcell (hget (l_heap L) (1, 0)%nat) = PNull.
+Proof. vm_compute. auto 10. Qed.
+
+(* In this machine a payload can be moved: the classic "copy the successor's payload into the
+   removed cell and unlink the successor" is two set_obj writes; after it the object 1 is in
+   another cell, which is what cell_objects_never_move excludes for every history of lstep. *)
+Example payload_move_is_expressible :
+  let L := lrun KList 0 (linit 0) [OApp 0 10; OApp 0 20] in
+  let H := l_heap L in
+  let H' := set_obj (set_obj H (0, 3)%nat (c_obj (hget H (0, 2)%nat))) (0, 2)%nat None in
+  option_map o_id (c_obj (hget H (0, 2)%nat)) = Some 1%nat /\ option_map o_id (c_obj (hget H' (0, 3)%nat)) = Some 1%nat /\
+  c_obj (hget H' (0, 2)%nat) = None.
 Proof. vm_compute. auto. Qed.
